@@ -29,6 +29,7 @@ DEC = 'ephemeralnet::protocol::decode_manifest'
 
 def run(ck):
     P = ck.prog(UNITS)
+    _lockout_from_now(ck, P)
     ha = P.fn(N + 'handle_announce')
     ck.touch(ha)
     sender = ha.params[1]['d']
@@ -361,3 +362,26 @@ def run(ck):
     callers = sorted({short(f_.q) for f_ in P.fns for j in f_.walk() if f_.nodes[j].get('callee') == N + 'clear_announce_failures'})
     ck.ob('C21.lock', 'C21.lock/cleared-only-by-accepted-announce', callers == ['Node::handle_announce'], '',
           'clear_announce_failures is called from handle_announce only (a handshake or any other event must not lift a lockout early); callers: %s' % callers)
+
+
+def _lockout_from_now(ck, P):
+    """The lockout a peer earns runs from the moment it is imposed: peer_announce_lockouts_[key] = now + kAnnounceLockoutDuration."""
+    from props.common import assignments
+    from sa.canon import canon, norm
+    N_ = 'ephemeralnet::Node::'
+    n = 0
+    for f in P.fns:
+        if not f.q.startswith(N_):
+            continue
+        for l_, r_, s_ in assignments(f):
+            if not any(f.nodes[j]['k'] == 'MemberExpr' and f.nodes[j].get('m') == N_ + 'peer_announce_lockouts_' for j in f.walk(l_)):
+                continue
+            n += 1
+            ck.touch(f)
+            t = norm(canon(f, r_))
+            nows = {nd_.get('n') for nd_ in f.nodes if nd_['k'] == 'VarDecl' and nd_.get('init') is not None and nd_['init'] >= 0 and
+                    any((f.nodes[j].get('callee') or '') == 'std::chrono::steady_clock::now' for j in f.walk(nd_['init']))} | {p_['n'] for p_ in f.params if 'time_point' in (p_.get('t') or '')}
+            ok = t[0] in ('op+', '+') and any(x[0] == 'v' and x[1] in nows for x in t[1:]) and any(x[0] == 'c' and x[1] == 180 or 'kAnnounceLockoutDuration' in repr(x) for x in t[1:])
+            ck.ob('C21.lockout', 'C21.lockout/runs-from-now#%d' % n, ok, f.loc(s_),
+                  'a lockout is stored as now + kAnnounceLockoutDuration (not anchored at an earlier rejection, which would shorten it) — found %r' % (t,))
+    ck.floor('C21.lockout', 'assignments of a lockout deadline', n, 1)
